@@ -42,6 +42,7 @@ func (r *hRec) Components() *Mask                 { return r.comp }
 func (r *hRec) Notify(w *World, e EntityEvent) {
 	vAssume(r.n < hMaxEv)
 	ev := &r.ev[r.n]
+	*ev = hEvent{}
 	r.n++
 	ev.e, ev.added, ev.removed, ev.types, ev.oldTarget = e.Entity, e.Added, e.Removed, e.EventTypes, e.OldTarget
 	ev.nAdded, ev.nRemoved = len(e.AddedIDs), len(e.RemovedIDs)
